@@ -202,7 +202,9 @@ theorem cfg_checked (c : MultiClientCfg) (port : Str) (itf : InterfaceD) (fc : F
           · cases he; rfl
           · split at he
             · cases he; rfl
-            · cases he
+            · split at he
+              · cases he; rfl
+              · cases he
       · cases he; rfl
 
 end C04
